@@ -47,6 +47,7 @@ func (a *Asm) Bytes() []byte { return a.b }
 
 const (
 	STOP, ADD, MUL                       = 0x00, 0x01, 0x02
+	KECCAK256                            = 0x20
 	ADDRESS, BALANCE, ORIGIN, CALLER     = 0x30, 0x31, 0x32, 0x33
 	CALLVALUE, CALLDATALOAD, CODECOPY    = 0x34, 0x35, 0x39
 	GASPRICE, BLOCKHASH, COINBASE        = 0x3a, 0x40, 0x41
@@ -83,7 +84,25 @@ func GenRuntime(t *rapid.T, universe []string, label string) ([]byte, string) {
 	var desc []string
 	n := rapid.IntRange(1, 4).Draw(t, label+"_nFrag")
 	for i := 0; i < n; i++ {
-		switch rapid.SampledFrom([]string{"sstore", "sstore", "log", "env", "callvalue", "balance", "create", "selfdestruct", "revert", "invalid", "sload_add"}).Draw(t, label+"_frag") {
+		switch rapid.SampledFrom([]string{"sstore", "sstore", "log", "env", "callvalue", "balance", "create", "selfdestruct", "revert", "invalid", "sload_add", "mem_read_fresh", "mem_fill", "log_fresh_mem"}).Draw(t, label+"_frag") {
+		case "mem_read_fresh":
+			// memory the frame never wrote reads as zero, whatever earlier frames of the process left behind
+			off := rapid.SampledFrom([]uint64{0, 32, 64, 96, 1000, 4000}).Draw(t, label+"_moff")
+			if rapid.Bool().Draw(t, label+"_hash") {
+				a.PushU(64).PushU(off).Op(KECCAK256).PushU(9).Op(SSTORE)
+				desc = append(desc, fmt.Sprintf("SSTORE(9,KECCAK(mem[%d:+64]))", off))
+			} else {
+				a.PushU(off).Op(MLOAD).PushU(9).Op(SSTORE)
+				desc = append(desc, fmt.Sprintf("SSTORE(9,MLOAD(%d))", off))
+			}
+		case "mem_fill":
+			off := rapid.SampledFrom([]uint64{0, 32, 64, 96, 1000, 4000}).Draw(t, label+"_foff")
+			a.Push(new(big.Int).Sub(new(big.Int).Lsh(big.NewInt(1), 256), big.NewInt(1))).PushU(off).Op(MSTORE)
+			desc = append(desc, fmt.Sprintf("MSTORE(%d,ff..ff)", off))
+		case "log_fresh_mem":
+			off := rapid.SampledFrom([]uint64{0, 64, 1000}).Draw(t, label+"_loff")
+			a.PushU(uint64(rapid.IntRange(0, 255).Draw(t, label+"_ltopic"))).PushU(64).PushU(off).Op(LOG1)
+			desc = append(desc, fmt.Sprintf("LOG1(mem[%d:+64])", off))
 		case "sstore":
 			k, v := rapid.IntRange(0, 3).Draw(t, label+"_k"), rapid.IntRange(0, 3).Draw(t, label+"_v")
 			a.PushU(uint64(v)).PushU(uint64(k)).Op(SSTORE)
